@@ -13,6 +13,7 @@ def build(tier, seed):
         LUnit("unit-step-norm", L.lemma_unit_step_norm),
         PUnit("take-step", [W.TAKE_STEP], W.REG5),
         PUnit("update-positions", [W.UPDATE_BODY], W.REG5),
+        PUnit("start-residue-on-grid", [W.HANDLE_WALK], W.REGH),      # uses the contract of _random_walk, proved in C17's units
         BUnit("engine-histories-overlap-floor", engine_histories.run),
     ] + [u for u in b_coords.UNITS if u.name == "c05-steps-box-overlap"]
     return {"units": units, "level": "other", "notes": "pyvc"}
